@@ -8,6 +8,7 @@
 #include <MeshIO.h>
 #include <GeometryIO.h>
 #include <OMExceptions.H>
+#include <sensors.h>
 #include <sys/resource.h>
 #include <sys/stat.h>
 #include <signal.h>
@@ -171,6 +172,79 @@ static Wire write_fault(Reader& r) {
     return out;
 }
 
+
+// ---- other writers the property names: Mesh::save (tri bnd off mesh vtk), Geometry::save, Sensors::save ----
+// [writer k] : writer 0..4 mesh formats, 5 Geometry::save(.geom), 6 Sensors::save(.txt) ; k as in write_fault, plus
+//  k=-4 : path below a regular file ; k=-5 : the output name is an existing directory
+static Wire writer_fault(Reader& r) {
+    static const char* sfx[]={"tri","bnd","off","mesh","vtk","geom","sens"};
+    ll w=r.z(), k=r.z(); if (w<0 || w>6) return Wire{-1};
+    std::string path=std::string("mw_out.")+sfx[w];
+    unlink(path.c_str()); rmdir(path.c_str());
+    if (k==-1) { if (symlink("/dev/full",path.c_str())!=0) return Wire{-1}; }
+    if (k==-2) path=std::string("no_such_dir/")+path;
+    if (k==-4) { FILE* f=fopen("mw_regular_file","w"); if (f) fclose(f); path=std::string("mw_regular_file/")+path; }
+    if (k==-5) { mkdir(path.c_str(),0755); }
+    struct rlimit old; getrlimit(RLIMIT_FSIZE,&old);
+    Geometry& g=geom();                                 // loaded before the limit applies
+    static Sensors* sens=nullptr; if (!sens && getenv("C18_SENSORS")) sens=new Sensors(getenv("C18_SENSORS"));
+    if (k>=0) { struct rlimit lim=old; lim.rlim_cur=(rlim_t)k; setrlimit(RLIMIT_FSIZE,&lim); }
+    Wire out=guarded([&]()->Wire {
+        if (w<=4) g.meshes().front().save(path);
+        else if (w==5) g.save(path);
+        else { if (!sens) return Wire{-1}; sens->save(path); }
+        return Wire{0};
+    });
+    setrlimit(RLIMIT_FSIZE,&old);
+    struct stat st; bool isdir = stat(path.c_str(),&st)==0 && S_ISDIR(st.st_mode);
+    out.push_back((k==-1 || isdir) ? 0 : fsize(path));
+    if (isdir) rmdir(path.c_str()); else unlink(path.c_str());
+    unlink("mw_regular_file");
+    return out;
+}
+
+// [what nameidx] : strict format selection. what 0: MathsIO::format_from_suffix(name) ; 1: MathsIO::format(name) ;
+//  2: Matrix::save(name) then the format actually written (sniffed) ; names from env C18_SUFFIX_NAMES
+static int sniff(const std::string& p) {
+    std::ifstream f(p.c_str(),std::ios::binary); char b[16]={0}; f.read(b,15);
+    if (!strncmp(b,"MATLAB",6)) return 3;
+    if (!strncmp(b,"ascii",5)) return 2;
+    bool text = b[0]!=0; for (int i=0;i<15 && b[i];++i) if (!(isdigit((unsigned char)b[i]) || strchr(" \t\n.-+e",b[i]))) text=false;
+    return text ? 0 : 1;
+}
+static Wire format_select(Reader& r) {
+    static std::vector<std::string> names=split_env("C18_SUFFIX_NAMES");
+    ll what=r.z(); size_t k=r.n(); if (k>=names.size()) return Wire{-1};
+    const std::string& q=names[k];
+    static const char* ids[]={"ascii","binary","tex","matlab"};
+    auto idof=[&](const maths::MathsIO::IO io)->ll { for (int i=0;i<4;++i) if (io->identity()==ids[i]) return i; return 9; };
+    return guarded([&]()->Wire {
+        switch (what) {
+        case 0: return Wire{0,idof(maths::MathsIO::format_from_suffix(q))};
+        case 1: return Wire{0,idof(maths::MathsIO::format(q))};
+        case 2: { Matrix M(2,3); for (size_t i=0;i<6;++i) M.data()[i]=1.0+i; M.save(q); Wire o{0,(ll)sniff(q)}; unlink(q.c_str()); return o; }
+        }
+        return Wire{-1};
+    });
+}
+
+// exactly singular matrices: [kind] 0 Matrix::inverse 2x2 [[1,2],[2,4]] ; 1 SymMatrix::inverse ; 2 SymMatrix::solveLin(Vector) ; 3 posdefinverse of a singular PSD
+static Wire singular(Reader& r) {
+    ll kind=r.z();
+    return guarded([&]()->Wire {
+        auto fin=[](const double* d,size_t n){ for (size_t i=0;i<n;++i) if (!std::isfinite(d[i])) return 0; return 1; };
+        switch (kind) {
+        case 0: { Matrix A(2,2); A(0,0)=1; A(0,1)=2; A(1,0)=2; A(1,1)=4; Matrix I=A.inverse(); return Wire{0,fin(I.data(),4)}; }
+        case 1: { SymMatrix S(2u); S(0,0)=1; S(0,1)=2; S(1,1)=4; SymMatrix I=S.inverse(); return Wire{0,fin(I.data(),3)}; }
+        case 2: { SymMatrix S(2u); S(0,0)=1; S(0,1)=2; S(1,1)=4; Vector b(2); b(0)=1; b(1)=1; Vector x=S.solveLin(b); return Wire{0,fin(x.data(),2)}; }
+        case 3: { SymMatrix S(2u); S(0,0)=1; S(0,1)=2; S(1,1)=4; SymMatrix I=S.posdefinverse(); return Wire{0,fin(I.data(),3)}; }
+        case 4: { Matrix A(2,2); A.set(0.0); Matrix I=A.inverse(); return Wire{0,fin(I.data(),4)}; }
+        case 5: { SymMatrix S(2u); S.set(0.0); SymMatrix I=S.inverse(); return Wire{0,fin(I.data(),3)}; }
+        }
+        return Wire{-1};
+    });
+}
+
 // replay of the refuted accessor theorem: SymMatrix(65536)(0,65535): pinned = write far outside a 256 KB buffer
 static Wire big_sym(Reader& r) {
     U n=getU(r), i=getU(r), j=getU(r);
@@ -192,6 +266,9 @@ int main(int argc,char** argv) {
         case 3: return io_open(r);
         case 4: return write_fault(r);
         case 5: return big_sym(r);
+        case 6: return writer_fault(r);
+        case 7: return format_select(r);
+        case 8: return singular(r);
         }
         return Wire{-1};
     });
